@@ -1,8 +1,439 @@
-//! engine `ranktree` (stub: to be filled in)
-use crate::util::Tr;
+//! C18: rank-decomposition trees (quizx::rankwidth).  One group = one graph and one history:
+//! `random_decomp`, then the annealer's three random moves interleaved with
+//! rankwidth()/rankwidth_score() (so that the cut-rank cache is partially filled when a move
+//! happens), optionally ending in an annealer run.  After EVERY call the full node array and the
+//! full cache are logged; TLC (mc/Trace_RankTree.tla) decides ValidTree / CacheCoherent /
+//! WidthOK on them with the definitions of spec/RankTree.tla.
+//!
+//! What is readable from outside: `DecompTree.nodes`, `.leaves`, `.interior` are pub; the cache
+//! `ranks` is private, but `rank((i, j))` is pub, normalises the key like every other cache
+//! operation and returns the cached Option WITHOUT computing anything, so the whole cache is
+//! read by asking for every index pair i <= j.  No hook in /repo is needed.
+//!
+//! Indices are shifted by one in the log (node index, vertex name: code k = spec k + 1).
+//!
+//!   --fixed                 the fixed small graphs (each: one history, and with --anneal the whole grid)
+//!   --histories K --moves M K histories on seeded random graphs (2..=maxn vertices), M calls each
+//!   --anneal K              K annealer runs on random graphs, parameters cycling through the grid
+//!   --maxn N                largest random graph (default 8)
+
+use crate::eng_simp::with_watchdog;
+use crate::util::{arg_flag, arg_num, guarded, Tr};
+use quizx::graph::{EType, GraphLike, VType};
+use quizx::rankwidth::annealer::RankwidthAnnealer;
+use quizx::rankwidth::decomp_tree::{DecompNode, DecompTree};
+use quizx::vec_graph::Graph;
+use rand::rngs::SmallRng;
+use rand::{Rng, SeedableRng};
 use serde_json::{json, Value};
 
-#[allow(unused_variables)]
+#[derive(Clone)]
+struct AG {
+    name: String,
+    n: usize,
+    edges: Vec<(usize, usize)>,
+}
+
+fn ag(name: &str, n: usize, edges: &[(usize, usize)]) -> AG {
+    AG { name: name.to_string(), n, edges: edges.to_vec() }
+}
+
+fn fixed_graphs() -> Vec<AG> {
+    let k = |n: usize| -> Vec<(usize, usize)> { (0..n).flat_map(|i| (i + 1..n).map(move |j| (i, j))).collect() };
+    let cyc = |n: usize| -> Vec<(usize, usize)> { (0..n).map(|i| (i, (i + 1) % n)).collect() };
+    let path = |n: usize| -> Vec<(usize, usize)> { (0..n - 1).map(|i| (i, i + 1)).collect() };
+    let mut k4p = k(4);
+    k4p.push((3, 4));
+    let mut v = vec![
+        ag("E2", 2, &[]),
+        ag("K2", 2, &[(0, 1)]),
+        ag("E3", 3, &[]),
+        ag("P3", 3, &path(3)),
+        ag("K3", 3, &k(3)),
+        ag("E4", 4, &[]),
+        ag("P4", 4, &path(4)),
+        ag("C4", 4, &cyc(4)),
+        ag("Star4", 4, &[(0, 1), (0, 2), (0, 3)]),
+        ag("K4", 4, &k(4)),
+        ag("E5", 5, &[]),
+        ag("C5", 5, &cyc(5)),
+        ag("P5", 5, &path(5)),
+        ag("K4P", 5, &k4p),
+        ag("C6", 6, &cyc(6)),
+        ag("E6", 6, &[]),
+        ag("K33", 6, &[(0, 3), (0, 4), (0, 5), (1, 3), (1, 4), (1, 5), (2, 3), (2, 4), (2, 5)]),
+        ag("Prism", 6, &[(0, 1), (1, 2), (2, 0), (3, 4), (4, 5), (5, 3), (0, 3), (1, 4), (2, 5)]),
+        ag("P7", 7, &path(7)),
+        ag("C8", 8, &cyc(8)),
+        ag("E8", 8, &[]),
+    ];
+    // 3-cube: rank-width 2
+    let cube: Vec<(usize, usize)> = (0..8usize)
+        .flat_map(|i| [1usize, 2, 4].into_iter().filter(move |b| i & b == 0).map(move |b| (i, i | b)))
+        .collect();
+    v.push(ag("Q3", 8, &cube));
+    v
+}
+
+fn random_graph(r: &mut impl Rng, maxn: usize, idx: usize) -> AG {
+    let n = r.random_range(2..=maxn.max(2));
+    // one in twelve edgeless, otherwise a density class
+    let p = match r.random_range(0..12) {
+        0 => 0.0,
+        1..=3 => 0.25,
+        4..=8 => 0.5,
+        _ => 0.8,
+    };
+    let mut edges = vec![];
+    for i in 0..n {
+        for j in i + 1..n {
+            if p > 0.0 && r.random_bool(p) {
+                edges.push((i, j));
+            }
+        }
+    }
+    AG { name: format!("R{idx}"), n, edges }
+}
+
+/// all vertices Z; vec_graph numbers them 0..n-1 in creation order; edge types alternate (the
+/// code under test only asks `connected`)
+fn build(a: &AG) -> Graph {
+    let mut g = Graph::new();
+    for i in 0..a.n {
+        let v = g.add_vertex(VType::Z);
+        assert_eq!(v, i, "vec_graph vertex numbering");
+    }
+    for (k, &(u, v)) in a.edges.iter().enumerate() {
+        g.add_edge_with_type(u, v, if k % 2 == 0 { EType::H } else { EType::N });
+    }
+    g
+}
+
+fn nodes_json(t: &DecompTree) -> Value {
+    Value::Array(
+        t.nodes
+            .iter()
+            .map(|nd| match nd {
+                DecompNode::Leaf([p], v) => json!({"kind": "leaf", "nhd": [p + 1], "v": v + 1}),
+                DecompNode::Interior(nh) => json!({"kind": "int", "nhd": [nh[0] + 1, nh[1] + 1, nh[2] + 1], "v": 0}),
+            })
+            .collect(),
+    )
+}
+
+/// the whole cache: every key the code can ever have inserted is a normalised pair of node indices
+fn cache_json(t: &mut DecompTree) -> Value {
+    let n = t.nodes.len();
+    let mut out = vec![];
+    for i in 0..n {
+        for j in i..n {
+            if let Some(r) = t.rank((i, j)) {
+                out.push(json!([i + 1, j + 1, r]));
+            }
+        }
+    }
+    Value::Array(out)
+}
+
+/// stop condition only (never the verdict): is the array still a tree the moves can work on?
+/// (move_random_subtree re-draws for ever on an array without a long path.)
+fn structurally_sound(t: &DecompTree) -> bool {
+    let n = t.nodes.len();
+    let mut deg = 0usize;
+    for (i, nd) in t.nodes.iter().enumerate() {
+        for &j in nd.nhd() {
+            if j >= n || j == i || !t.nodes[j].nhd().contains(&i) {
+                return false;
+            }
+            deg += 1;
+        }
+        let mut nh = nd.nhd().to_vec();
+        nh.sort();
+        nh.dedup();
+        if nh.len() != nd.nhd().len() {
+            return false;
+        }
+    }
+    if n == 0 || deg != 2 * (n - 1) {
+        return false;
+    }
+    let mut seen = vec![false; n];
+    let mut stack = vec![0usize];
+    seen[0] = true;
+    while let Some(x) = stack.pop() {
+        for &j in t.nodes[x].nhd() {
+            if !seen[j] {
+                seen[j] = true;
+                stack.push(j);
+            }
+        }
+    }
+    seen.iter().all(|&b| b)
+}
+
+fn gtags(a: &AG) -> Vec<String> {
+    let mut t = vec![];
+    if a.edges.is_empty() {
+        t.push("edgeless".to_string());
+    }
+    if a.n == 2 {
+        t.push("n2".to_string());
+    }
+    t
+}
+
+/// run `f` on the tree on a watchdog thread; the tree comes back even after a panic (in the
+/// state the code left it in); None = no answer within 20 s
+fn call<T: Send + 'static>(tree: DecompTree, f: impl FnOnce(&mut DecompTree) -> T + Send + 'static) -> Option<(DecompTree, Result<T, String>)> {
+    with_watchdog(20, move || {
+        let mut t = tree;
+        let r = guarded(|| f(&mut t));
+        (t, r)
+    })
+}
+
+#[derive(Default)]
+struct Counts {
+    graphs: usize,
+    histories: usize,
+    moves: usize,
+    widths: usize,
+    anneals: usize,
+    panics: usize,
+    timeouts: usize,
+    unsound_stops: usize,
+}
+
+const KINDS: [&str; 3] = ["swap_leaves", "local_swap", "move_subtree"];
+
+fn begin_event(a: &AG, tree: &mut DecompTree, res: &str, msg: &str, how: &str) -> Value {
+    json!({"k": "begin", "name": a.name, "n": a.n, "how": how, "res": res, "msg": msg,
+           "adj": a.edges.iter().map(|&(u, v)| json!([u + 1, v + 1])).collect::<Vec<_>>(),
+           "nodes": nodes_json(tree), "cache": cache_json(tree),
+           "leaves": tree.leaves.iter().map(|x| x + 1).collect::<Vec<_>>(),
+           "interior": tree.interior.iter().map(|x| x + 1).collect::<Vec<_>>(),
+           "tags": gtags(a)})
+}
+
+/// random_decomp, then `m` calls; returns the tree (None if the history had to stop)
+fn history(a: &AG, g: &Graph, s: u64, m: usize, tr: &mut Tr, c: &mut Counts) -> Option<DecompTree> {
+    let mut code_rng = SmallRng::seed_from_u64(s);
+    let mut pick = SmallRng::seed_from_u64(s ^ 0x9e3779b97f4a7c15);
+    tr.group();
+    c.histories += 1;
+    let mut tree = match guarded(|| DecompTree::random_decomp(g, &mut code_rng)) {
+        Ok(t) => t,
+        Err(msg) => {
+            c.panics += 1;
+            tr.emit(begin_event(a, &mut DecompTree::new(), "panic", &msg, "history"));
+            return None;
+        }
+    };
+    tr.emit(begin_event(a, &mut tree, "ok", "", "history"));
+    // the share of width queries differs between histories: from "cache almost always full" to "almost never"
+    let wshare = [1, 3, 5][pick.random_range(0..3)];
+    for _ in 0..m {
+        if pick.random_range(0..10) < wshare {
+            let g2 = g.clone();
+            match call(tree, move |t| {
+                let w = t.rankwidth(&g2);
+                let sc = t.rankwidth_score(&g2);
+                // the same on a copy whose cache was emptied
+                let mut fresh = t.clone();
+                fresh.clear_ranks();
+                (w, sc, fresh.rankwidth(&g2), fresh.rankwidth_score(&g2))
+            }) {
+                None => {
+                    c.timeouts += 1;
+                    tr.emit(json!({"k": "width", "res": "timeout", "tags": gtags(a)}));
+                    return None;
+                }
+                Some((mut t, Err(msg))) => {
+                    c.panics += 1;
+                    tr.emit(json!({"k": "width", "res": "panic", "msg": msg, "cache": cache_json(&mut t), "tags": gtags(a)}));
+                    return None;
+                }
+                Some((mut t, Ok((w, sc, fw, fsc)))) => {
+                    c.widths += 1;
+                    tr.emit(json!({"k": "width", "res": "ok", "rankwidth": w, "score": sc, "fresh_rankwidth": fw, "fresh_score": fsc,
+                                   "cache": cache_json(&mut t), "tags": gtags(a)}));
+                    tree = t;
+                }
+            }
+        } else {
+            // weights close to the annealer's (1 : 4 : 5), leaf swaps a bit more often
+            let kind = match pick.random_range(0..10) {
+                0..=1 => 0,
+                2..=5 => 1,
+                _ => 2,
+            };
+            let seed2: u64 = code_rng.random();
+            let mut tags = gtags(a);
+            tags.push(KINDS[kind].to_string());
+            match call(tree, move |t| {
+                let mut r = SmallRng::seed_from_u64(seed2);
+                match kind {
+                    0 => t.swap_random_leaves(&mut r),
+                    1 => t.random_local_swap(&mut r),
+                    _ => t.move_random_subtree(&mut r),
+                }
+            }) {
+                None => {
+                    c.timeouts += 1;
+                    tr.emit(json!({"k": "move", "kind": KINDS[kind], "res": "timeout", "tags": tags}));
+                    return None;
+                }
+                Some((mut t, Err(msg))) => {
+                    c.panics += 1;
+                    tr.emit(json!({"k": "move", "kind": KINDS[kind], "res": "panic", "msg": msg,
+                                   "nodes": nodes_json(&t), "cache": cache_json(&mut t), "tags": tags}));
+                    return None;
+                }
+                Some((mut t, Ok(()))) => {
+                    c.moves += 1;
+                    let valid = guarded(|| t.is_valid_for_graph(g)).unwrap_or(false);
+                    tr.emit(json!({"k": "move", "kind": KINDS[kind], "res": "ok", "valid": valid,
+                                   "nodes": nodes_json(&t), "cache": cache_json(&mut t), "tags": tags}));
+                    if !structurally_sound(&t) {
+                        c.unsound_stops += 1;
+                        return None;
+                    }
+                    tree = t;
+                }
+            }
+        }
+    }
+    Some(tree)
+}
+
+#[derive(Clone, Copy)]
+struct Params {
+    iters: usize,
+    init_temp: f64,
+    min_temp: f64,
+    cooling: f64,
+    adaptive: bool,
+}
+
+fn grid() -> Vec<Params> {
+    let mut v = vec![];
+    for &iters in &[0usize, 30, 250] {
+        for &(init_temp, min_temp, cooling) in &[(5.0, 0.01, 0.95), (0.5, 0.05, 0.8), (50.0, 0.01, 0.99)] {
+            for &adaptive in &[true, false] {
+                v.push(Params { iters, init_temp, min_temp, cooling, adaptive });
+            }
+        }
+    }
+    v
+}
+
+/// one annealer run.  with_decomp = false: RankwidthAnnealer::new (its own random_decomp; the
+/// group starts with the annealer's initial tree).  with_decomp = true: a short history first,
+/// then new_with_decomp on the tree it left behind, cache included.
+fn anneal(a: &AG, g: &Graph, s: u64, p: Params, with_decomp: bool, tr: &mut Tr, c: &mut Counts) {
+    let rng = SmallRng::seed_from_u64(s ^ 0xa11ea1);
+    let mut tags = gtags(a);
+    if p.adaptive {
+        tags.push("adaptive".to_string());
+    }
+    let pj = json!({"iters": p.iters, "init_temp_milli": (p.init_temp * 1000.0).round() as i64,
+                    "min_temp_milli": (p.min_temp * 1000.0).round() as i64,
+                    "cooling_milli": (p.cooling * 1000.0).round() as i64, "adaptive": p.adaptive,
+                    "ctor": if with_decomp { "new_with_decomp" } else { "new" }});
+    let mut an = if with_decomp {
+        let Some(tree) = history(a, g, s, 6, tr, c) else { return };
+        RankwidthAnnealer::new_with_decomp(g.clone(), tree, rng)
+    } else {
+        tr.group();
+        let g2 = g.clone();
+        match guarded(move || RankwidthAnnealer::new(g2, rng)) {
+            Ok(an) => {
+                let mut init = an.init_decomp().clone();
+                tr.emit(begin_event(a, &mut init, "ok", "", "anneal"));
+                an
+            }
+            Err(msg) => {
+                c.panics += 1;
+                tr.emit(begin_event(a, &mut DecompTree::new(), "panic", &msg, "anneal"));
+                return;
+            }
+        }
+    };
+    an.set_iterations(p.iters).set_init_temp(p.init_temp).set_min_temp(p.min_temp).set_cooling_rate(p.cooling).set_adaptive_cooling(p.adaptive);
+    // what the annealer itself will take as the width of its starting tree (cache as it stands)
+    let g2 = g.clone();
+    let init_width = {
+        let mut i2 = an.init_decomp().clone();
+        guarded(|| i2.rankwidth(&g2)).ok()
+    };
+    c.anneals += 1;
+    let g3 = g.clone();
+    let r = with_watchdog(60, move || {
+        guarded(move || {
+            let mut out = an.run();
+            let valid = out.is_valid_for_graph(&g3);
+            let nodes = nodes_json(&out);
+            let cache = cache_json(&mut out); // as returned, before any further query
+            let w = out.rankwidth(&g3);
+            let sc = out.rankwidth_score(&g3);
+            (valid, nodes, cache, w, sc)
+        })
+    });
+    match r {
+        None => {
+            c.timeouts += 1;
+            tr.emit(json!({"k": "anneal", "params": pj, "res": "timeout", "tags": tags}));
+        }
+        Some(Err(msg)) => {
+            c.panics += 1;
+            tr.emit(json!({"k": "anneal", "params": pj, "res": "panic", "msg": msg, "tags": tags}));
+        }
+        Some(Ok((valid, nodes, cache, w, sc))) => {
+            tr.emit(json!({"k": "anneal", "params": pj, "res": "ok", "valid": valid,
+                           "init_width": init_width.map(|x| x as i64).unwrap_or(-1),
+                           "final_width": w, "final_score": sc, "nodes": nodes, "cache": cache, "tags": tags}));
+        }
+    }
+}
+
 pub fn record(args: &[String], seed: u64, tr: &mut Tr) -> Value {
-    json!({"stub": true})
+    let nhist: usize = arg_num(args, "--histories", 0);
+    let nmoves: usize = arg_num(args, "--moves", 30);
+    let nanneal: usize = arg_num(args, "--anneal", 0);
+    let maxn: usize = arg_num(args, "--maxn", 8);
+    let fixed = arg_flag(args, "--fixed");
+    let mut c = Counts::default();
+    let mut r = crate::gens::rng(seed ^ 0xc18);
+    let grid = grid();
+    if fixed {
+        for (i, a) in fixed_graphs().iter().enumerate() {
+            let g = build(a);
+            c.graphs += 1;
+            if nhist > 0 {
+                for rep in 0..2u64 {
+                    history(a, &g, seed.wrapping_mul(1000003) + 17 * i as u64 + rep, nmoves, tr, &mut c);
+                }
+            }
+            if nanneal > 0 {
+                for (j, p) in grid.iter().enumerate() {
+                    anneal(a, &g, seed.wrapping_mul(7919) + (i * 100 + j) as u64, *p, j % 3 == 2, tr, &mut c);
+                }
+            }
+        }
+    }
+    for i in 0..nhist {
+        let a = random_graph(&mut r, maxn, i);
+        let g = build(&a);
+        c.graphs += 1;
+        history(&a, &g, r.random(), nmoves, tr, &mut c);
+    }
+    for i in 0..nanneal {
+        let a = random_graph(&mut r, maxn, nhist + i);
+        let g = build(&a);
+        c.graphs += 1;
+        let p = grid[(i + seed as usize) % grid.len()];
+        anneal(&a, &g, r.random(), p, i % 3 == 2, tr, &mut c);
+    }
+    json!({"graphs": c.graphs, "histories": c.histories, "moves": c.moves, "width_queries": c.widths, "annealer_runs": c.anneals,
+           "panics": c.panics, "timeouts": c.timeouts, "stopped_on_unsound_tree": c.unsound_stops})
 }
